@@ -174,9 +174,9 @@ Cause(ps, out) ==
   IN IF Member(e1, out) THEN <<"leading-space-of-line-with-content-removed", closer>>
      ELSE IF Member(e2, out) THEN <<"space-after-multi-line-statement-removed-from-line-with-content", "-">>
      ELSE IF Member(e3, out) THEN <<"leading-space-and-space-after-multi-line-statement-removed", "-">>
-     ELSE IF Member(e4, out) THEN <<"white-space-outside-content-free-lines-removed", LastKind(ps)>>
-     ELSE IF Member(e5, out) THEN <<"text-removed", LastKind(ps)>>
-     ELSE <<"text-changed-or-added", LastKind(ps)>>
+     ELSE IF Member(e4, out) THEN <<"white-space-outside-content-free-lines-removed", "-">>
+     ELSE IF Member(e5, out) THEN <<"text-removed", "-">>
+     ELSE <<"text-changed-or-added", "-">>
 
 (* =====================================================================================
    PART 2 - implementation-shaped model
